@@ -39,7 +39,7 @@ Proof.
   simpl in Hmode. destruct Hmode as [E|[E|[E|[E|[E|[]]]]]]; rewrite <- E in *; try discriminate.
   - destruct Hm as (-> & -> & Hp). rewrite (Hkept eq_refl) in Hp. subst p'. reflexivity.
   - destruct Hm as (-> & ->). reflexivity.
-  - destruct Hm as (-> & ->). reflexivity.
+  - destruct Hm as (-> & -> & _). reflexivity.
 Qed.
 
 (* (A) a text the parser accepts as complete is not an unfinished prefix *)
